@@ -184,8 +184,8 @@ func init() {
 		c.usubRule("arith", func(fn *ssa.Function) bool {
 			return pkgRelOf(fn) == "sync/preconfirmed" && strings.HasSuffix(p.File(fnPos(fn)), "/chain_storage.go")
 		}, map[string]string{
-			"sync/preconfirmed.replaceSlot: current.tip() - blockNumber": "sole caller computeUpdate returns an error for blockNumber > tip+1, routes blockNumber == tip+1 to extend and rejects blockNumber < oldest before calling replaceSlot, hence blockNumber ≤ tip (two-fact arithmetic outside the idiom fragment; reviewed)",
-			"(*sync/preconfirmed.ChainReader).baseState: c.oldestPreConf() - 1": "pre-confirmed slots lie strictly above the stored head, so the oldest slot is ≥ 1 whenever a base state exists; the poller only builds views at head+1",
+			"sync/preconfirmed.replaceSlot: current.tip() - blockNumber":                                                       "sole caller computeUpdate returns an error for blockNumber > tip+1, routes blockNumber == tip+1 to extend and rejects blockNumber < oldest before calling replaceSlot, hence blockNumber ≤ tip (two-fact arithmetic outside the idiom fragment; reviewed)",
+			"(*sync/preconfirmed.ChainReader).baseState: c.oldestPreConf() - 1":                                                "pre-confirmed slots lie strictly above the stored head, so the oldest slot is ≥ 1 whenever a base state exists; the poller only builds views at head+1",
 			"(*sync/preconfirmed.ChainReader).oldestPreConf: c.head.preconfirmed.Block.Header.Number - uint64((c.length - 1))": "structural invariant of NewChain/extend/replaceSlot/rebuild: a view of length L ending at block N holds the contiguous blocks N-L+1..N, hence N ≥ L-1; all callers hold length > 0",
 		})
 	})
@@ -688,7 +688,6 @@ func c20DeepCopyAndStop(c *Ctx) {
 		c.und("stop-test-every-iteration", "PreConfirmedStateAt", p.Pos(fnPos(f)), "fold loop with a stop test not found")
 	}
 }
-
 
 // isLocalAccumulator: no value of type T / *T is stored into a field, a global, a map/slice element, or boxed into an
 // interface anywhere in T's package: such a struct lives only in locals, parameters and results of the package's functions.
